@@ -120,6 +120,7 @@ func main() {
 	rep.Extra["cases_total"] = idx
 	rep.Extra["sum_cases"] = mine
 	rep.Extra["sum_queries"] = w.queries
+	rep.Extra["sum_queries_asked_twice_after_a_timeout"] = w.slowQueries
 	rep.Extra["sum_query_ms"] = w.queryNs / 1e6
 	rep.Extra["sum_step_ms"] = w.stepNs / 1e6
 	rep.Extra["sum_isolation_reopens"] = w.healReopens
